@@ -15,7 +15,44 @@ theorem foldlM_read {β γ ι : Type} (rd : γ → β) (f : β → ι → Option
     | none => rfl
     | some s' => exact foldlM_read rd f g h xs s'
 
+theorem foldl_read {β γ ι : Type} (rd : γ → β) (f : β → ι → β) (g : γ → ι → γ)
+    (h : ∀ s i, rd (g s i) = f (rd s) i) : ∀ (L : List ι) (s : γ), rd (L.foldl g s) = L.foldl f (rd s)
+  | [], _ => rfl
+  | x :: xs, s => by rw [List.foldl_cons, List.foldl_cons, foldl_read rd f g h xs, h]
+
 variable {α : Type} [Add α] [Sub α] [Neg α] [Mul α] [Div α] [OfNat α 0] [DecidableEq α]
+
+omit [Add α] [Mul α] [OfNat α 0] [Sub α] [Neg α] [Div α] [DecidableEq α] in
+theorem read_setEntryT {Mr n : Nat} (A : Tab4 Mr n 3 3 α) (r : Fin Mr) (o : Fin n) (j k : Fin 3) (v : α) :
+    (setEntryT A r o j k v).read = setEntry A.read r o j k v := by
+  funext r' o' j' k'
+  by_cases h1 : r' = r
+  · by_cases h2 : o' = o
+    · by_cases h3 : j' = j
+      · by_cases h4 : k' = k
+        · simp [setEntryT, setEntry, Tab4.read, Tab3.read, Tab2.read, Tab.read_set, h1, h2, h3, h4]
+        · simp [setEntryT, setEntry, Tab4.read, Tab3.read, Tab2.read, Tab.read_set, h1, h2, h3, h4]
+      · simp [setEntryT, setEntry, Tab4.read, Tab3.read, Tab2.read, Tab.read_set, h1, h2, h3]
+    · simp [setEntryT, setEntry, Tab4.read, Tab3.read, Tab2.read, Tab.read_set, h1, h2]
+  · simp [setEntryT, setEntry, Tab4.read, Tab3.read, Tab2.read, Tab.read_set, h1]
+
+omit [Sub α] [Neg α] [Div α] [DecidableEq α] in
+theorem distributeOtherT_spec {M Mr n nrot : Nat} (fcIdx : Fin M → Fin Mr) (R : Fin nrot → Mat3 α)
+    (perms : Fin nrot → Fin n → Fin n) (i ri : Fin M) (sym : Fin nrot) (o : Fin n) (fc : Tab4 Mr n 3 3 α) :
+    (distributeOtherT fcIdx R perms i ri sym o fc).read = distributeOther fcIdx R perms i ri sym o fc.read := by
+  unfold distributeOtherT distributeOther
+  refine foldl_read Tab4.read _ _ (fun s j => ?_) _ _
+  refine foldl_read Tab4.read _ _ (fun s k => ?_) _ _
+  refine foldl_read Tab4.read _ _ (fun s l => ?_) _ _
+  refine foldl_read Tab4.read _ _ (fun s m => ?_) _ _
+  exact read_setEntryT _ _ _ _ _ _
+
+omit [Sub α] [Neg α] [Div α] [DecidableEq α] in
+theorem distributeBodyT_spec {M Mr n nrot : Nat} (fcIdx : Fin M → Fin Mr) (R : Fin nrot → Mat3 α)
+    (perms : Fin nrot → Fin n → Fin n) (i ri : Fin M) (sym : Fin nrot) (fc : Tab4 Mr n 3 3 α) :
+    (distributeBodyT fcIdx R perms i ri sym fc).read = distributeBody fcIdx R perms i ri sym fc.read := by
+  unfold distributeBodyT distributeBody
+  exact foldl_read Tab4.read _ _ (fun s o => distributeOtherT_spec _ _ _ _ _ _ _ _) _ _
 
 theorem distributeLitT_spec {M Mr n nrot : Nat} (targets : Fin M → Fin n) (fcIdx : Fin M → Fin Mr)
     (R : Fin nrot → Mat3 α) (perms : Fin nrot → Fin n → Fin n) (mapSyms : Fin n → Fin nrot)
@@ -28,7 +65,7 @@ theorem distributeLitT_spec {M Mr n nrot : Nat} (targets : Fin M → Fin n) (fcI
   intro s i
   split
   · rfl
-  · split <;> simp [read_tab4]
+  · split <;> simp [distributeBodyT_spec]
 
 theorem runDirectLitT_spec {M n nrot : Nat} (atomList : Fin M → Fin n) (R : Fin nrot → Mat3 α)
     (perms : Fin nrot → Fin n → Fin n) (data : List (AtomData n α)) :
